@@ -18,6 +18,7 @@ Scenario (dict):
   app_kw     further keyword arguments of WebSocketApp (header, cookie, subprotocols); header_callable: True makes the
              header option a function that returns the static lines + "X-Seq: <number of the evaluation>"
   cb_style   "partial" | "object": the callbacks are functools.partial objects / instances with __call__ (no __name__)
+  prepared_socket_timeout  the transport is connected by the application and handed over (socket=), with this timeout set on it
   fake_tls   the fake TLS layer is available although the URL is ws:// (a redirect to wss:// can be followed)
   trace      enableTrace(True) with a null handler for the duration of the scenario
   global_reconnect  websocket.setReconnect(x) instead of run_forever(reconnect=x)
@@ -340,6 +341,8 @@ def run_app(sc, schedule=None, seed=None, line_preempt=None):
             raise KeyboardInterrupt()
         if a == "send":
             app_send("from-%s-%d" % (name, n))
+        if isinstance(a, str) and a.startswith("deftimeout:"):
+            websocket.setdefaulttimeout(float(a.split(":")[1]))       # the application changes the default timeout while running
         if a == "close":
             sched.ev("app_close_call", where=name)
             holder["app"].close()
@@ -454,6 +457,12 @@ def run_app(sc, schedule=None, seed=None, line_preempt=None):
         holder["app"] = app
 
         def main():
+            if sc.get("prepared_socket_timeout") is not None:
+                # the application connects the transport itself (socket= option) and has given it a timeout of its own
+                ps = schedworld.SSocket(net)
+                ps.connect(("10.0.0.1", 80))
+                ps.settimeout(sc["prepared_socket_timeout"])
+                app.prepared_socket = ps
             for r in range(sc.get("runs", 1)):
                 if sc.get("runs_kw"):            # per-run keyword arguments (the same object run with other settings)
                     runkw.clear()
@@ -468,7 +477,20 @@ def run_app(sc, schedule=None, seed=None, line_preempt=None):
                 try:
                     v = app.run_forever(**runkw)
                     if ext is not None:
-                        ext.dispatch(stop=lambda: bool(getattr(app, "has_done_teardown", False)))
+                        # (rel would idle for ever; the harness leaves its loop when the run has been torn down, or - after the
+                        #  application's close() - once nothing but idle timers has been left for a few intervals)
+                        grace = 3 * max(float(runkw.get("reconnect") or 0), float(runkw.get("ping_interval") or 0),
+                                        float(runkw.get("ping_timeout") or 0), 1.0)
+                        seen = {}
+
+                        def finished():
+                            if getattr(app, "has_done_teardown", False):
+                                return True
+                            if not app.keep_running and not [k for k in ext.readers if not k.closed]:
+                                seen.setdefault("t", sched.now)
+                                return sched.now - seen["t"] > grace
+                            return False
+                        ext.dispatch(stop=finished)
                         v = app.has_errored
                     sched.ev("run_ret", value=bool(v), run=r)
                     if sc.get("send_after_run"):
@@ -582,6 +604,7 @@ def run_app(sc, schedule=None, seed=None, line_preempt=None):
             lg.handlers = lg_state[1]
         if sc.get("global_reconnect") is not None:
             websocket.setReconnect(0)
+        websocket.setdefaulttimeout(None)
     live = [t.name for t in sched.threads if not t.done]
     sched.ev("quiesce", open=sum(1 for s in net.conns if not s.closed), live=live,
              sock_none=holder["app"].sock is None, deadlock=sched.deadlock, overrun=sched.overrun)
